@@ -1,15 +1,33 @@
 (* C12: Ty::max never panics when every enum whose variants are compared is
    registered in ENUM_MAP. *)
-From Capy Require Import Common.Util Common.Ty Model.TyRel Model.ExpectMatch Spec.TyLaws Proofs.TyRelBasics.
+From Capy Require Import Common.Util Common.Ty.
+From Capy Require Import Model.TyRel Model.ExpectMatch Spec.TyLaws Proofs.TyRelBasics.
 Local Arguments ty_eqb : simpl never.
 Local Arguments N.eqb : simpl never.
 Local Arguments N.leb : simpl never.
 Local Arguments N.ltb : simpl never.
 Local Arguments N.max : simpl never.
 Local Arguments N.mul : simpl never.
-Local Arguments fit : simpl never.
-Local Arguments has_semantics_of : simpl never.
+Local Arguments TyRel.fit : simpl never.
+Local Arguments TyRel.has_semantics_of : simpl never.
 Local Arguments is_zero_sized : simpl never.
+
+Definition no_crash {A} (r : result A) : Prop :=
+  match r with Ok _ => True | _ => False end.
+
+Section WithFixes.
+Variable fx : fixes.
+Notation fit := (TyRel.fit fx).
+Notation weak := (TyRel.weak fx).
+Notation feq := (TyRel.feq fx).
+Notation cast := (TyRel.cast fx).
+Notation has_semantics_of := (TyRel.has_semantics_of fx).
+Notation tmax := (TyRel.tmax fx).
+Notation accepts := (TyLaws.accepts fx).
+Notation known_weak_fit := (TyLaws.known_weak_fit fx).
+Notation known_max := (TyLaws.known_max fx).
+Notation max_accepts := (TyLaws.max_accepts fx).
+Notation ntarget := (TyLaws.ntarget fx).
 
 Fixpoint registered (m : enum_map) (t : ty) : bool :=
   match t with
@@ -19,14 +37,13 @@ Fixpoint registered (m : enum_map) (t : ty) : bool :=
   | _ => true
   end.
 
-Definition no_crash {A} (r : result A) : Prop :=
-  match r with Ok _ => True | _ => False end.
+
 
 Lemma max_no_crash_lem : forall m a, registered m a = true -> forall b, no_crash (tmax m a b).
 Proof.
-  induction a using ty_ind'; intros Hr b; destruct b; cbn [tmax];
+  induction a using ty_ind'; intros Hr b; destruct b; cbn [TyRel.tmax];
     (destruct (ty_eqb _ _) eqn:E; [exact I|]);
-    cbn -[tmax];
+    cbn -[TyRel.tmax];
     repeat (first [ exact I
                   | match goal with
                     | |- context [if ?c then _ else _] => destruct c
@@ -37,6 +54,8 @@ Proof.
                         let H := fresh "Hm" in
                         assert (H : no_crash (tmax m x y)) by (first [apply IHa | apply IHa1 | apply IHa2]; cbn [registered] in Hr; try apply andb_true_iff in Hr; tauto);
                         destruct (tmax m x y) as [[?|]| |]; try contradiction
-                    end ]; cbn -[tmax]).
+                    end ]; cbn -[TyRel.tmax]).
   all: cbn [registered] in Hr; match goal with H : get_enum _ _ = None |- _ => rewrite H in Hr end; discriminate.
 Qed.
+
+End WithFixes.
